@@ -19,8 +19,8 @@ CLAIMS = {
         note=TRUST + "The cross-product/Unique level of ChangeExtendedSpatialIdsZoom is covered by the contracts of Unique and of the kernels; its own set-level postcondition is listed in DESIGN.md as not yet discharged.",
         tech="deductive verification: weakest-precondition VCs over go/ssa with contracts, exhaustive zoom case split, SMT (z3)", ref="4 C03"),
     "C05": dict(
-        text="The extended-ID checks are proved exact: CheckExtendedSpatialIdsOverlap returns true iff the two voxels' ancestors at the coarser zoom coincide on both axes (for all valid IDs, all zooms symbolic), errors give false; the array form is proved equal to the disjunction of the pairwise relation with empty lists giving false (nested quantified invariants); symmetry and reflexivity are lemmas. The D obligations (constant index into map-ordered slices) are discharged from the zoom-change contract.",
-        note=TRUST + "The spatial-ID (radix-tree) form is third-party code: not under contract in this check (its panics on empty input and its sub-metre imprecision were found by replay and fixed, see known_findings.txt).",
+        text="The extended-ID checks are proved exact: CheckExtendedSpatialIdsOverlap returns true iff the two voxels' ancestors at the coarser zoom coincide on both axes (for all valid IDs, all zooms symbolic), errors give false; the array form is proved equal to the disjunction of the pairwise relation with empty lists giving false (nested quantified invariants); symmetry and reflexivity are lemmas. The D obligations (constant index into map-ordered slices) are discharged from the zoom-change contract. The spatial-ID (radix-tree) forms are proved exact as well (array form = disjunction over all pairs of the ancestor-or-equal relation on (f+2^(z-1), x, y) for zooms 1..35 and altitudes within +-2^24 m; single-pair form; symmetry and reflexivity lemma) relative to an ASSUMED abstract contract of the third-party tree (ghost set of appended cells; IsOverlap = some stored cell is an ancestor, descendant or equal).",
+        note=TRUST + "The radix tree itself is third-party code: its contract is assumed, and validated on every run only by a bounded randomised model test against the real tree (reported under bounded_checks, not counted as proof).",
         tech="deductive verification: WP VCs over go/ssa, modular callee contracts with case analysis, opaque spec relation, SMT", ref="4 C05"),
     "C09": dict(
         text="Lemmas over the verified kernel contracts: zooming in and back out is the identity on each axis for all 36x36 zoom pairs, descendants partition the finer grid, the ancestor of -1 is -1, Higher (the merge ancestor) is the floor ancestor; the exactness of the pairwise overlap relation (C05) gives overlap of nested voxels.",
